@@ -47,9 +47,11 @@ def run(db, chk):
     oks = [bi for bi, si, pl, rv, ln, mc in f.assigns() if rv[0] == "agg" and rv[1] == "adt" and rv[2].endswith("gix_object::Data")]
     mism = [bi for bi, si, pl, rv, ln, mc in f.assigns() if rv[0] == "agg" and rv[3] == "SizeMismatch"]
     chk.floor("Data construction in find_inner", len(oks), 1)
-    chk.floor("SizeMismatch constructions", len(mism), 2)
-    eq_edges = set()
-    guards = 0
+    chk.floor("SizeMismatch constructions", len(mism), 1)
+    # per inflate call site: the count IT returned must take part in an equality test against the header's size on every path to Ok(Data)
+    inflates = [c for c in f.calls() if c.is_(r"(Inflate::once|inflate::read)$")]
+    chk.floor("inflate calls in find_inner (first block + remainder)", len(inflates), 1)
+    cmps = []
     for c in comparisons(f):
         if c["op"] not in ("Ne", "Eq"):
             continue
@@ -59,18 +61,23 @@ def run(db, chk):
         te, fe = e
         diff, same = (te, fe) if c["op"] == "Ne" else (fe, te)
         rd = set().union(*[f.reach_from(t) for _, t in diff]) if diff else set()
-        rs = set().union(*[f.reach_from(t) for _, t in same]) if same else set()
-        if not (set(mism) & rd) or (set(mism) & rd) <= rs and False:
+        if not (set(mism) & rd) or (set(oks) & rd):
             continue
-        # must relate inflater output with header size
-        ra = fl.roots(c["a"], stop_named=False) | fl.roots(c["b"], stop_named=False)
-        from_header = any(r[0] == "call" and r[1].endswith("decode::loose_header") for r in ra)
-        from_inflate = any(r[0] == "call" and re.search(r"(Inflate::once|inflate::read)$", r[1]) for r in ra)
-        if from_header and from_inflate and not (set(oks) & rd):
-            guards += 1
-            eq_edges |= same
-    chk.floor("size guards (inflated length vs header size)", guards, 2)
-    chk.ob("data-only-after-size-check", "find_inner", bool(eq_edges) and fl.cut_off(oks, eq_edges), "object data can be returned without the inflated size having been compared with the header", "%s:%d" % (f.file, f.line), key="data-only-after-size-check")
+        ra = fl.roots(c["a"], stop_named=False, sites=True) | fl.roots(c["b"], stop_named=False, sites=True)
+        if not any(r[0] == "call" and r[1].endswith("decode::loose_header") for r in ra):
+            continue
+        sites = {r[2] for r in ra if r[0] == "call" and re.search(r"(Inflate::once|inflate::read)$", r[1])}
+        cmps.append((same, sites, c["line"]))
+    chk.floor("size guards (inflated length vs header size)", len(cmps), 1)
+    for ic in inflates:
+        edges = set()
+        for same, sites, ln in cmps:
+            if ic.block in sites:
+                edges |= same
+        ok = bool(edges) and fl.cut_off(oks, edges, start=ic.block)
+        chk.ob("data-only-after-size-check", "find_inner after %s@%d" % (ic.name.split("::")[-1], ic.line), ok,
+               "object data can be returned although the byte count this inflate call reported was never compared with the size declared in the header (a truncated file would be returned zero-padded)",
+               ic.where(), key="data-only-after-size-check|%s" % ic.name.split("::")[-1])
     # writer
     fo = db.one("^" + P + r"write::<impl gix_odb::store_impls::loose::Store>::finalize_object$")
     ofl = Flow(fo)
